@@ -94,10 +94,59 @@ Definition storage_ops : list bytes :=
 Definition audited (m : bytes) : bool :=
   match class_of m storage_methods with Some Audited => true | _ => false end.
 
+(* ---------------------------------------------------------------- time.Time: an instant and a Location
+   Entry.Timestamp is a time.Time.  GENESIS / GROUNDING entries are stamped time.Now().UTC(), LOG entries
+   time.Now() (the process-local zone).  What the code does with it:
+     CalculateHash, BinarySerializer.Encode : Timestamp.UnixNano()                         (the instant)
+     BinaryDecoder.Decode                   : time.Unix(0, ns)                              (instant, Local)
+     JsonSerializer.Encode                  : Timestamp.UTC().Format("2006-01-02T15:04:05.999999999Z")
+     JsonDecoder.Decode                     : time.Parse(time.RFC3339Nano, s)               (literal Z: UTC)
+   A printed date-time is represented by the nanosecond count of that calendar reading ([t_wall]); the
+   calendar arithmetic itself is the standard library's. *)
+Record gotime := { t_inst : Z;     (* ns since the epoch *)
+                   t_off : Z }.    (* offset of its Location at that instant, seconds east of UTC *)
+Definition t_utc (t : gotime) : gotime := {| t_inst := t_inst t; t_off := 0%Z |}.            (* Time.UTC() *)
+Definition t_unixnano (t : gotime) : Z := t_inst t.                                          (* Time.UnixNano() *)
+Definition t_wall (t : gotime) : Z := (t_inst t + t_off t * 1000000000)%Z.                   (* Time.Format(layout without zone) *)
+Definition t_unix0 (zone : Z -> Z) (ns : Z) : gotime := {| t_inst := ns; t_off := zone ns |}.  (* time.Unix(0, ns) *)
+Definition t_parse_z (wall : Z) : gotime := {| t_inst := wall; t_off := 0%Z |}.              (* time.Parse, zone "Z" *)
+
+(* an Entry as the Go code holds it: [e_ts (g_e g)] is the instant, [g_off g] the offset of the Location *)
+Record gentry := { g_e : entry; g_off : Z }.
+Definition g_time (g : gentry) : gotime := {| t_inst := e_ts (g_e g); t_off := g_off g |}.
+Definition with_ts (e : entry) (ts : Z) : entry :=
+  {| e_ver := e_ver e; e_ts := ts; e_type := e_type e; e_det := e_det e; e_prev := e_prev e; e_hash := e_hash e;
+     e_sig := e_sig e |}.
+Definition hash_input_go (g : gentry) : option bytes := hash_input (with_ts (g_e g) (t_unixnano (g_time g))).
+Definition enc_bin_go (g : gentry) : option bytes := enc_bin (with_ts (g_e g) (t_unixnano (g_time g))).
+Definition enc_json_go (g : gentry) : jdoc := enc_json (with_ts (g_e g) (t_wall (t_utc (g_time g)))).
+Definition dec_bin_go (zone : Z -> Z) (l : bytes) : rd gentry :=
+  match dec_bin l with
+  | ROk e r => ROk {| g_e := e; g_off := t_off (t_unix0 zone (e_ts e)) |} r
+  | RErr x => RErr x
+  end.
+Definition dec_json_go (j : jdoc) : option gentry :=
+  match dec_json j with
+  | Some e => Some {| g_e := with_ts e (t_inst (t_parse_z (e_ts e))); g_off := t_off (t_parse_z (e_ts e)) |}
+  | None => None
+  end.
+Definition dec_all_go (zone : Z -> Z) (fuel : nat) (l : bytes) : list gentry * option rerr :=
+  let (es, err) := dec_all fuel l [] in
+  (map (fun e => {| g_e := e; g_off := t_off (t_unix0 zone (e_ts e)) |}) es, err).
+(* the entries of a log together with the Location each timestamp carries *)
+Fixpoint zipg (l : list entry) (offs : list Z) : list gentry :=
+  match l, offs with
+  | e :: l', o :: offs' => {| g_e := e; g_off := o |} :: zipg l' offs'
+  | e :: l', [] => {| g_e := e; g_off := 0%Z |} :: zipg l' []
+  | [], _ => []
+  end.
+
 (* ================================================================ line protocol ===============
    M <method name hex>                 -> AUDITED | UNAUDITED | LIFECYCLE | UNKNOWN
    MS <name,name,...>                  -> COMPLETE | INCOMPLETE   (the interface's method set vs. the table)
-   W <fmt> <mode> <op;op;...>          -> <shape> <record;record;...>
+   T <zone> <fmt> <off> <entry>        -> <encoding> <decoded entry>@<offset of the decoded timestamp's Location>
+       the entry's timestamp is held in the process-local zone <zone>, whose offset at that instant is <off> s
+   W <fmt> <mode> <zone> <op;op;...>   -> <shape> <record;record;...>       (<zone> = process-local time zone)
        op     = name,bucket,key,upload,part,srcb,srck,uploadresult,cred,auth,reqid,ip,err  (hex tokens, part decimal)
        mode   = seq | conc | restart:<i>   (restart after i operations)
        shape  = run length encoding of the entry types written: S (genesis) L<n> G ...
@@ -193,8 +242,34 @@ Definition run_line (l : bytes) : bytes :=
         if forallb (fun m => mem_bytes m (map fst storage_methods)) ms && forallb (fun p => mem_bytes (fst p) ms) storage_methods
         then B"COMPLETE" else B"INCOMPLETE"
       else parse_error
+  | [cmd; zone; fmt; off; ent] =>
+      if bytes_eqb cmd B"T" then
+        do off <- parse_Z off; do e <- parse_entry ent;
+        let g := {| g_e := e; g_off := off |} in
+        if bytes_eqb fmt B"bin" then
+          match enc_bin_go g with
+          | None => B"ERR"
+          | Some bs =>
+              match dec_bin_go (fun _ => off) bs with
+              | ROk g' [] => unwords [tokb bs; show_entry (g_e g') ++ B"@" ++ show_Z (g_off g')]
+              | _ => unwords [tokb bs; B"DECERR"]
+              end
+          end
+        else
+          let j := enc_json_go g in
+          match dec_json_go j with
+          | Some g' => unwords [show_jdoc j; show_entry (g_e g') ++ B"@" ++ show_Z (g_off g')]
+          | None => unwords [show_jdoc j; B"DECERR"]
+          end
+      else if bytes_eqb cmd B"W" then
+        let body := ent in let mode := fmt in
+        do ops <- mapM parse_op (split_tr ";"%byte body);
+        do restart <- (if is_prefix B"restart:" mode then option_map Some (parse_nat (skipn 8 mode)) else Some None);
+        let out := run_workload restart ops in
+        unwords [show_shape out; match records_of out with [] => B"_" | rs => join B";" (map show_record rs) end]
+      else parse_error
   | [cmd; fmt; mode; body] =>
-      if bytes_eqb cmd B"W" then
+      if bytes_eqb cmd B"W" then  (* legacy form without zone *)
         do ops <- mapM parse_op (split_tr ";"%byte body);
         do restart <- (if is_prefix B"restart:" mode then option_map Some (parse_nat (skipn 8 mode)) else Some None);
         let out := run_workload restart ops in
